@@ -393,6 +393,53 @@ theorem plane_rescale_one_is_identity (px0 px1 : K) (n0 n1 i j : Int) :
   · have := (grid_uses_own_axis (K := K) n0 n1 n0 n1 i j 1).2.2.1
     rw [this]; have h := h1.2; rw [h1.1] at h; exact h
 
+/-- an explicit `shape=` (scalar or pair, regenerated branches of `util.rescale`) is a field of view in INPUT samples: each axis gets
+`⌈m·s⌉` samples from its own entry (a scalar serves both axes), and passing the image's own shape is the default -/
+theorem rescale_explicit_shape (n0 n1 m m0 m1 : Int) (s : K) :
+    gridShapeArg Int.ceil (fun k => (k : K)) n0 n1 (.scalar m) s =
+      (outShape Int.ceil (fun k => (k : K)) m s, outShape Int.ceil (fun k => (k : K)) m s) ∧
+    gridShapeArg Int.ceil (fun k => (k : K)) n0 n1 (.pair m0 m1) s =
+      (outShape Int.ceil (fun k => (k : K)) m0 s, outShape Int.ceil (fun k => (k : K)) m1 s) ∧
+    gridShapeArg Int.ceil (fun k => (k : K)) n0 n1 (.pair n0 n1) s = gridShapeArg Int.ceil (fun k => (k : K)) n0 n1 .default s ∧
+    gridShapeArg Int.ceil (fun k => (k : K)) n0 n0 (.scalar n0) s = gridShapeArg Int.ceil (fun k => (k : K)) n0 n0 .default s :=
+  ⟨rfl, rfl, rfl, rfl⟩
+
+/-- an explicit shape changes the field of view, **not the sampling or the registration**: an output of `S` samples and one of `S'`
+samples with `S = S' + 2c` interpolate at the same input coordinates, shifted by `c` samples (the explicit-shape result is the centre
+crop / pad of the default result), and the `⌈m·s⌉` samples span the requested `m` input samples to within one output sample -/
+theorem explicit_shape_same_sampling (S S' c n k m : Int) (s : K) (hs : 0 < s) (hS : S = S' + 2 * c) :
+    coord (fun k => (k : K)) (2 : K) S n s (k + c) = coord (fun k => (k : K)) (2 : K) S' n s k ∧
+    (m : K) ≤ (outShape Int.ceil (fun k => (k : K)) m s : K) / s ∧
+    (outShape Int.ceil (fun k => (k : K)) m s : K) / s < (m : K) + 1 / s := by
+  have hs' : s ≠ 0 := ne_of_gt hs
+  refine ⟨?_, ?_, ?_⟩
+  · unfold coord; rw [hS]; push_cast; field_simp; ring
+  · rw [le_div_iff₀ hs]; unfold outShape; exact Int.le_ceil _
+  · rw [div_lt_iff₀ hs]; unfold outShape
+    have := Int.ceil_lt_add_one ((m : K) * s)
+    have h1 : ((m : K) + 1 / s) * s = (m : K) * s + 1 := by field_simp
+    rw [h1]; exact this
+
+example : gridShapeArg Int.ceil (fun k => (k : ℚ)) 9 9 (.scalar 5) (3 / 2) = (8, 8) ∧
+    gridShapeArg Int.ceil (fun k => (k : ℚ)) 9 9 (.pair 4 7) (3 / 2) = (6, 11) := by
+  constructor <;> simp [gridShapeArg, Gen.rescaleCeilArgScalar, Gen.rescaleCeilArgPair, Prod.ext_iff, Int.ceil_eq_iff] <;> norm_num
+
+/-- complex input (regenerated branch `Gen.rescaleComplexParts`): the real part of the result is the interpolant of the real part and
+the imaginary part that of the imaginary part, on the same grid, both under the support mask of `img ≠ 0`; for an image whose
+imaginary part vanishes the real part of the result is exactly the real-input result `rescaleAt` -/
+theorem complex_rescale_by_parts (interp interp1 : (Int → Int → K) → K → K → K) (eps : K) (n0 n1 : Int)
+    (re im : Int → Int → K) (s : K) (i j : Int) :
+    (∃ mm : K, rescaleComplexAt interp interp1 Int.ceil (fun k => (k : K)) 2 eps n0 n1 re im s i j =
+      some (interp re (coord (fun k => (k : K)) 2 (outShape Int.ceil (fun k => (k : K)) n0 s) n0 s i)
+                      (coord (fun k => (k : K)) 2 (outShape Int.ceil (fun k => (k : K)) n1 s) n1 s j) * mm,
+            interp im (coord (fun k => (k : K)) 2 (outShape Int.ceil (fun k => (k : K)) n0 s) n0 s i)
+                      (coord (fun k => (k : K)) 2 (outShape Int.ceil (fun k => (k : K)) n1 s) n1 s j) * mm)) ∧
+    ((rescaleComplexAt interp interp1 Int.ceil (fun k => (k : K)) 2 eps n0 n1 re (fun _ _ => 0) s i j).map (·.1) =
+      some (rescaleAt interp interp1 Int.ceil (fun k => (k : K)) 2 eps n0 n1 re s i j)) := by
+  constructor
+  · exact ⟨_, rfl⟩
+  · simp [rescaleComplexAt, rescaleAt, Gen.rescaleComplexParts, List.lookup, complexPart]
+
 /-- the original plane is untouched (regenerated part): the effect-site scan finds no in-place write on any argument of
 `Plane.rescale`, `Plane.resample`, `util.rescale` (they work on `self.copy()` / fresh arrays) -/
 theorem original_untouched :
